@@ -52,7 +52,7 @@ type Opts struct {
 	Heap     string // e.g. "4g"
 	Stack    string // e.g. "512m" (thread stack for deep recursion)
 	DumpDot  bool
-	Simulate string    // e.g. "num=100" -> -simulate num=100
+	Simulate string // e.g. "num=100" -> -simulate num=100
 	Depth    int
 	Seed     int64
 	LineFn   func(line string) // called for every stdout line (streaming); Out is then not retained
